@@ -53,12 +53,62 @@ def written_by(ctx, fn: FunctionInfo, obj_pred) -> Dict[str, List[Term]]:
         for e in p.events:
             if e.kind == 'setitem' and e.data[1][0] == 'const' and obj_pred(e.data[0]):
                 out.setdefault(e.data[1][1], []).append(e.data[2])
+            elif e.kind == 'call':
+                # obj.update({k: v}) / obj.update(k=v)
+                mc = method_call(e.data[0])
+                if mc and mc[1] == 'update' and obj_pred(mc[0]):
+                    if mc[2] and mc[2][0][0] == 'dict':
+                        for k, v in mc[2][0][1]:
+                            if k[0] == 'const':
+                                out.setdefault(k[1], []).append(v)
+                    for k, v in e.data[0][3]:
+                        if k != '**':
+                            out.setdefault(k, []).append(v)
+        # keys of a returned literal built around **vars(self)
+        if p.status == 'return' and p.retval is not None and obj_pred(p.retval):
+            for k, v in literal_overrides(p.retval).items():
+                out.setdefault(k, []).append(v)
     return out
 
 
+def _is_vars_self(t: Term) -> bool:
+    return (is_call(t, 'builtins.vars') and t[2] == (SELF,)) or \
+        (t[0] == 'attr' and t[1] == SELF and t[2] == '__dict__')
+
+
 def is_vars_copy(t: Term) -> bool:
-    return is_call(t, 'builtins.dict') and len(t[2]) == 1 and \
-        is_call(t[2][0], 'builtins.vars') and t[2][0][2] == (SELF,)
+    """A fresh dictionary initialised from the layer attributes: dict(vars(self)),
+    vars(self).copy(), copy.copy(vars(self)) or a literal {..., **vars(self), ...}."""
+    if is_call(t, 'builtins.dict') and len(t[2]) == 1 and _is_vars_self(t[2][0]):
+        return True
+    if is_call(t, 'copy.copy') and len(t[2]) == 1 and _is_vars_self(t[2][0]):
+        return True
+    mc = method_call(t)
+    if mc and mc[1] == 'copy' and _is_vars_self(mc[0]):
+        return True
+    if t[0] == 'dict' and any(k == ('starstar',) and (_is_vars_self(v) or is_vars_copy(v))
+                              for k, v in t[1]):
+        return True
+    return False
+
+
+def literal_overrides(t: Term) -> Dict[str, Term]:
+    """Constant keys of a literal {.., **vars(self), ..} that survive: entries written AFTER
+    the splat override the layer attributes, entries before it are overwritten by them (every
+    key of interest is an attribute of the layer)."""
+    out: Dict[str, Term] = {}
+    if t[0] != 'dict':
+        return out
+    for k, v in t[1]:
+        if k == ('starstar',):
+            if _is_vars_self(v) or is_vars_copy(v):
+                out.clear()
+                if v[0] == 'dict':
+                    out.update(literal_overrides(v))
+            continue
+        if k[0] == 'const':
+            out[k[1]] = v
+    return out
 
 
 def is_modified_vars(t: Term) -> bool:
